@@ -6,6 +6,7 @@ import (
 	"context"
 	"fmt"
 	"math/rand/v2"
+	"net/netip"
 	"os"
 	"strconv"
 	"sync"
@@ -14,6 +15,7 @@ import (
 	"time"
 
 	"github.com/pion/ice/v4"
+	"github.com/pion/stun/v3"
 
 	"verif/sim/core"
 	"verif/sim/rig"
@@ -87,6 +89,46 @@ func raceRound(t *testing.T, seed int64, round int) {
 					d.W.Deliver(dg)
 				}
 				time.Sleep(2 * time.Millisecond)
+			}
+		}()
+		// foreign inbound traffic, concurrently with everything else: Binding indications (keepalives of a
+		// non-pion peer) and plain data, from the addresses of known remote candidates and from unknown ones
+		wg.Add(1)
+		go func() {
+			defer wg.Done()
+			rng := rand.New(rand.NewPCG(uint64(seed), uint64(round*100+99)))
+			seq := uint32(0)
+			for {
+				select {
+				case <-stop:
+					return
+				default:
+				}
+				to, from := A, B
+				if rng.IntN(2) == 0 {
+					to, from = B, A
+				}
+				locals, _ := to.A.GetLocalCandidates()
+				if len(locals) > 0 {
+					dst := rig.CandAP(locals[rng.IntN(len(locals))])
+					src := netip.AddrPortFrom(netip.MustParseAddr("10.0.9.9"), uint16(9000+rng.IntN(8)))
+					if remotes, _ := to.A.GetRemoteCandidates(); len(remotes) > 0 && rng.IntN(3) > 0 {
+						src = rig.CandAP(remotes[rng.IntN(len(remotes))])
+					}
+					seq++
+					var payload []byte
+					switch rng.IntN(3) {
+					case 0:
+						payload = rig.MsgSpec{Class: stun.ClassIndication, Method: stun.MethodBinding, Seq: seq, Integrity: rig.IntAbsent}.Build()
+					case 1:
+						payload = rig.MsgSpec{Class: stun.ClassRequest, Method: stun.MethodBinding, Seq: seq,
+							Username: rig.Str(to.Ufrag + ":" + from.Ufrag), Priority: rig.U32(1234), Controlled: rig.U64(7), Key: to.Pwd}.Build()
+					default:
+						payload = []byte(fmt.Sprintf("\x80foreign-data-%d", seq))
+					}
+					d.W.Deliver(d.W.Inject(src, dst, payload, "race-inject"))
+				}
+				time.Sleep(time.Duration(1+rng.IntN(3)) * time.Millisecond)
 			}
 		}()
 		var connMu sync.Mutex
